@@ -15,6 +15,38 @@ GEN_GROUPS = ["Nav"]
 _G = None
 
 
+def diagnose(report):
+    """when an obligation broke: name the accessor sites and navigation chains that the checker cannot discharge any more
+    (evaluated with the model, which builds even when the theorem does not)"""
+    import subprocess
+    import tempfile
+    from . import core
+    src = """import CocaVerif.Model.Nav
+open CocaVerif CocaVerif.Nav CocaVerif.Gen
+#eval IO.println (String.intercalate "\n" ((unsafeSites JavaGrammar.rhs NavSites.sites).map fun s => s!"UNSAFE-ACCESSOR {s.pos} {s.fn} rule={s.rule} accessor={s.sym} given={s.given}"))
+#eval IO.println (String.intercalate "\n" ((unsafePaths JavaGrammar.rhs JavaGrammar.ruleNames NavSites.pathSites).map fun s => s!"UNSAFE-CHAIN {s.pos} {s.fn} rule={s.rule} steps={repr s.steps}"))
+#eval IO.println (String.intercalate "\n" (NavSites.missingFiles.map fun f => s!"MISSING-FILE {f}"))
+"""
+    ok, out = core.lake_build(["CocaVerif.Model.Nav"])
+    if not ok:
+        return ["Model.Nav does not build (regenerated grammar or sites no longer type-check)"]
+    d = tempfile.mkdtemp(prefix="diag_", dir=os.path.join(core.LEAN, ".lake"))
+    try:
+        f = os.path.join(d, "Diag.lean")
+        open(f, "w").write(src)
+        r = subprocess.run(["lake", "env", "lean", f], cwd=core.LEAN, capture_output=True, text=True, timeout=600)
+        txt = " ".join((r.stdout + r.stderr).split())
+        txt = txt.replace("CocaVerif.NavTree.Step", "")
+        lines = []
+        for part in txt.replace("UNSAFE-", "\nUNSAFE-").replace("MISSING-FILE", "\nMISSING-FILE").splitlines():
+            if part.startswith(("UNSAFE-", "MISSING-FILE")):
+                lines.append(part.strip())
+        return lines[:40]
+    finally:
+        import shutil
+        shutil.rmtree(d, ignore_errors=True)
+
+
 def grammar():
     global _G
     if _G is None:
